@@ -551,6 +551,35 @@ pub fn run(args: &Args, rep: &mut Report) {
                     if rest_b != rest_s {
                         v17(rep, "iterator/remaining-items-differ", String::new());
                     }
+                    // consuming adaptors on iterators whose size hints are honest but loose
+                    let m = rng.range(1, 9) as u32;
+                    let mk = || std::iter::once(lo).chain((lo..hi + 6).filter(move |x| x % m != 1)).chain(std::iter::once(hi));
+                    let which = rng.below(8);
+                    let (rb, rs): (Vec<u32>, Vec<u32>) = {
+                        let mut bx = BBox::new_in(mk(), b);
+                        let mut sx = std::boxed::Box::new(mk());
+                        match which {
+                            0 => (bx.last().into_iter().collect(), sx.last().into_iter().collect()),
+                            1 => (vec![bx.count() as u32], vec![sx.count() as u32]),
+                            2 => (bx.max().into_iter().collect(), sx.max().into_iter().collect()),
+                            3 => (vec![bx.fold(0u32, |a, x| a.wrapping_mul(31).wrapping_add(x))], vec![sx.fold(0u32, |a, x| a.wrapping_mul(31).wrapping_add(x))]),
+                            4 => (bx.skip(2).step_by(2).collect(), sx.skip(2).step_by(2).collect()),
+                            5 => (bx.rev().take(3).collect(), sx.rev().take(3).collect()),
+                            6 => {
+                                let (mut bx, mut sx) = (bx, sx);
+                                let a = (bx.nth(1), bx.size_hint(), bx.by_ref().last());
+                                let c = (sx.nth(1), sx.size_hint(), sx.by_ref().last());
+                                if a.1 != c.1 {
+                                    v17(rep, "iterator/size_hint-differs", format!("{:?} vs {:?}", a.1, c.1));
+                                }
+                                (a.0.into_iter().chain(a.2).collect(), c.0.into_iter().chain(c.2).collect())
+                            }
+                            _ => (vec![bx.position(|x| x == hi).map_or(u32::MAX, |p| p as u32)], vec![sx.position(|x| x == hi).map_or(u32::MAX, |p| p as u32)]),
+                        }
+                    };
+                    if rb != rs {
+                        v17(rep, "iterator/consuming-adaptor-differs-from-std", format!("adaptor {}: {:?} vs {:?}", which, rb, rs));
+                    }
                 }
                 10 => {
                     // futures
